@@ -32,6 +32,36 @@ def run(job):
                      ref_unit_symbol=W.uid("rr"), quantum=1)
     PM = QuantityMeta(W.uid("VPM"), (Quantity,), {}, define_as=Money / P.Mass)
     eur_kg = PM.derive_unit_from(EUR, P.KILOGRAM)
+    USD = Money.register_currency("USD")
+    usd_kg = PM.derive_unit_from(USD, P.KILOGRAM)
+    if not job.shard:
+        # two units of a type without reference unit (both of "scale 1"):
+        # each operation must give its own currency, whatever was evaluated
+        # before in this process
+        for first, second in ((eur_kg, usd_kg), (usd_kg, eur_kg)):
+            for u in (first, second):
+                cur = EUR if u is eur_kg else USD
+                r = (2 * u) * (3 * P.KILOGRAM)
+                job.case("compound/mul-gives-own-currency", (u.symbol, first.symbol),
+                         r.unit is cur and O.F(r.amount) == 6, repr(r), cur.symbol)
+                r = (3 * P.KILOGRAM) * (2 * u)
+                job.case("compound/mul-gives-own-currency", ("r", u.symbol),
+                         r.unit is cur and O.F(r.amount) == 6, repr(r), cur.symbol)
+                r = (2 * u) * (500 * P.GRAM)
+                job.case("compound/mul-gives-own-currency", ("g", u.symbol),
+                         r.unit is cur and O.F(r.amount) == 1, repr(r), cur.symbol)
+                other = USD if cur is EUR else EUR
+                r = (6 * cur) / (2 * u)
+                job.case("compound/div-gives-mass", (cur.symbol, u.symbol),
+                         r.unit is P.KILOGRAM and O.F(r.amount) == 3, repr(r), "3 kg")
+                try:
+                    r = (6 * other) / (2 * u)
+                    job.case("compound/div-other-currency-undefined",
+                             (other.symbol, u.symbol), False, repr(r),
+                             "UndefinedResultError")
+                except UndefinedResultError:
+                    job.case("compound/div-other-currency-undefined",
+                             (other.symbol, u.symbol), True)
     # aliases: units that compare equal to a base unit / a derived unit but
     # are distinct objects (scale 1 resp. equal scale)
     P.Length.new_unit(W.uid("mx"), define_as=Decimal(1) * P.METRE)
